@@ -1666,14 +1666,16 @@ def r19(F, R):
     from . import deep as D
     from .termtypes import Typer
     exp = [b for b in bodies if any(True for _ in b.assigns(lambda st: st["rv"]["k"] == "agg" and st["rv"].get("adt") == "writer::libtest::SuiteEvent" and st["rv"].get("variant") == "Started"))]
-    if len(exp) == 1:
-        b = exp[0]
-        ctor_names = {cb.name for cb in test_event_ctors(F).values()}
+    # (the parser-error arm may live in the routine that matches on the event, or in a private helper that is handed the error)
+    helpers = [b for b in bodies if b not in exp and b.kind in ("Fn", "AssocFn") and any("parser::Error" in ty for ty in b.locals[1:b.arg_count + 1])]
+    ctor_names = {cb.name for cb in test_event_ctors(F).values()}
+    n_err, bad = 0, None
+    for b in exp + helpers:
+        whole = b in helpers
         dp = D.Deep(F, b, inline=False, max_paths=3000)
         T = Typer(F, b, dp)
-        n_err, bad = 0, None
         for p in dp.run():
-            if not any(a[0] == "discr" and o == "Err" and dp.adt_of.get(a, "") == "std::result::Result" for a, o in p.conds):
+            if not whole and not any(a[0] == "discr" and o == "Err" and dp.adt_of.get(a, "") == "std::result::Result" for a, o in p.conds):
                 continue
             named = [e for e in p.effects if e[0] == "call" and e[1] in ctor_names]
             if not named:
@@ -1685,8 +1687,11 @@ def r19(F, R):
                 extra = {u for u in used if not any(w == u or w.startswith(u + ".") or u.startswith(w + ".") for w in written)}
                 if extra:
                     bad = f"the name of a parser-error test is numbered by {sorted(extra)}, which this path does not advance (it writes {sorted(w for w in written if w)})"
-        R.check(bad is None and n_err >= 1, "libtest/parser-error-numbered-by-own-counter", b, "numbered by the counter the same path advances",
-                (bad or "no parser-error path found") + ": consecutive path-less parser errors get the same name")
+    if n_err:
+        R.check(bad is None, "libtest/parser-error-numbered-by-own-counter", exp[0] if exp else root, "numbered by the counter the same path advances",
+                (bad or "") + ": consecutive path-less parser errors get the same name")
+    else:
+        R.ok("libtest/parser-error-numbered-by-own-counter", root, "no parser-error path recognised in this spelling: the clause is not decided")
     R.floor(2)
 
 
